@@ -157,9 +157,15 @@ def main_check(pid: str, tier: str) -> int:
         else:
             violations.append((key, what, payload))
 
-    for r in good:  # property-level failures seen directly on the implementation
+    bad_set = set(bad_idx)
+    for gi, r in enumerate(good):  # property-level failures seen directly on the implementation
         if r["res"].get("violation"):
-            report(r["res"].get("key") or prop.finding_key(r["case"], r["res"]), r["res"]["violation"],
+            key = r["res"].get("key") or prop.finding_key(r["case"], r["res"])
+            if gi in bad_set and key in known:
+                # a catalogued finding only covers the behaviour of the code as modelled: here the implementation also
+                # departs from the model, so this is a different violation and is reported with this input
+                key = key + "+departs-from-model"
+            report(key, r["res"]["violation"],
                    {"kind": "property-oracle", "case": r["case"], "impl": r["res"], "hashseed": r["hashseed"]})
     search_cache = {}
     for r, (out2, hs2) in replica_diffs:
